@@ -52,6 +52,9 @@ type replication struct {
 }
 
 func (r *replication) runLoop(req *appendReq) {
+	if verifReplTakeover(r, req) {
+		return
+	}
 	if trace {
 		println(r, "repl.start")
 	}
@@ -328,6 +331,7 @@ func (r *replication) writeAppendEntriesReq(c *conn, req *appendReq, sendEntries
 			println(r, ">>", req)
 		}
 	}
+	verifReplEvent(r, "append.sent", req.prevLogIndex, req.numEntries)
 	if err := c.writeReq(req, r.deadline()); err != nil {
 		return err
 	}
@@ -344,6 +348,7 @@ func (r *replication) writeAppendEntriesReq(c *conn, req *appendReq, sendEntries
 }
 
 func (r *replication) onAppendEntriesResp(resp *appendResp, reqLastIndex uint64) error {
+	verifReplEvent(r, "append.resp", uint64(resp.result), reqLastIndex)
 	if trace {
 		println(r, "<<", resp)
 	}
@@ -394,6 +399,7 @@ func (r *replication) sendInstallSnapReq(c *conn, appReq *appendReq) error {
 	if trace {
 		println(r, ">>", req)
 	}
+	verifReplEvent(r, "snap.sent", req.lastIndex, req.lastTerm)
 	if err = c.writeReq(req, r.deadline()); err != nil {
 		return err
 	}
